@@ -92,7 +92,11 @@ func cmdCheck(args []string) int {
 	repo := fs.String("repo", "/repo", "repository")
 	verbose := fs.Bool("v", false, "verbose")
 	onlyFn := fs.String("func", "", "only functions containing this substring")
+	noEvidence := fs.Bool("noevidence", false, "do not write the evidence file or replay files (self-test runs on changed copies)")
 	fs.Parse(args)
+	if *noEvidence {
+		replayRoot = filepath.Join(verifDir, "out", "selftest-replays")
+	}
 	if *tier == "" {
 		*tier = os.Getenv("VERIF_TIER")
 	}
@@ -223,7 +227,7 @@ func cmdCheck(args []string) int {
 	var perOb []map[string]any
 	var samples []any
 	var knownHit []string
-	os.MkdirAll(filepath.Join(verifDir, "replays", *prop), 0o755)
+	os.MkdirAll(filepath.Join(replayRoot, *prop), 0o755)
 	for _, n := range names {
 		a := agg[n]
 		ok := true
@@ -331,7 +335,7 @@ func cmdCheck(args []string) int {
 				rec["verdict"] = "known-finding"
 			} else {
 				violations++
-				path := filepath.Join(verifDir, "replays", *prop, sanitize(sr.Name)+".json")
+				path := filepath.Join(replayRoot, *prop, sanitize(sr.Name)+".json")
 				data, _ := json.MarshalIndent(map[string]any{"property": *prop, "obligation": sr.Name, "kind": "struct", "detail": sr.Detail, "failing_input": nil}, "", " ")
 				os.WriteFile(path, data, 0o644)
 				fmt.Printf("VIOLATION property=%s replay=%s no-failing-input-found\n", *prop, path)
@@ -399,9 +403,11 @@ func cmdCheck(args []string) int {
 		},
 		"assumptions": as, "wall_s": wall, "violations": violations,
 	}
-	os.MkdirAll(filepath.Join(verifDir, "evidence"), 0o755)
-	data, _ := json.MarshalIndent(ev, "", " ")
-	os.WriteFile(filepath.Join(verifDir, "evidence", *prop+".json"), data, 0o644)
+	if !*noEvidence {
+		os.MkdirAll(filepath.Join(verifDir, "evidence"), 0o755)
+		data, _ := json.MarshalIndent(ev, "", " ")
+		os.WriteFile(filepath.Join(verifDir, "evidence", *prop+".json"), data, 0o644)
+	}
 	fmt.Printf("%s: %d/%d obligations discharged over %d functions (%d paths, %d solver queries, %.1fs); %d known finding(s); %d violation(s)\n",
 		*prop, discharged, total, len(fnames), pathCount, sv.queries, wall, len(knownHit), violations)
 	if violations > 0 {
@@ -424,7 +430,7 @@ type replayInfo struct {
 
 func writeReplay(w *World, prop string, a *aggOblig) replayInfo {
 	o := a.Fail
-	path := filepath.Join(verifDir, "replays", prop, sanitize(a.Name)+".json")
+	path := filepath.Join(replayRoot, prop, sanitize(a.Name)+".json")
 	model := map[string]string{}
 	modelKind := ""
 	if o.Verdict == "sat" {
@@ -575,3 +581,5 @@ func specsDir() string {
 	}
 	return filepath.Join(verifDir, "specs")
 }
+
+var replayRoot = filepath.Join(verifDir, "replays")
